@@ -73,9 +73,9 @@ var flagProp = flag.String("prop", "C02", "C02: everything; C18: only the cases 
 
 var ticks atomic.Int64
 
-// patienceTicks x 5 ms of this process's own scheduled clock (>= 15 s of wall time, usually far more on a loaded machine);
+// patienceTicks x 5 ms of this process's own scheduled clock (>= 10 s of wall time, far more on a loaded machine);
 // the largest "short" time-out configured anywhere below is 150 ms.
-const patienceTicks = 3000
+const patienceTicks = 2000
 
 const (
 	near = 150 * time.Millisecond // time-out for a step in which the scripted upstream stays silent
@@ -1864,8 +1864,21 @@ func sequences(menu, maxLen int) [][]int {
 func enumerate(ctx *seq.Ctx) {
 	c18 := *flagProp == "C18"
 	add := func(id string, nontrivial, blocking bool, input string, run func() (string, string)) {
-		if c18 && !blocking {
+		if (c18 && !blocking) || ctx.Stop() {
 			return
+		}
+		if c18 {
+			// C18 is about termination; what was reported as delivered is judged by the C02 run of the same cases
+			inner := run
+			run = func() (string, string) {
+				key, msg := inner()
+				for _, p := range []string{"call-never-returns:", "worker:stop-never-completes", "worker:chunk-unresolved-at-stop", "worker:chunk-resolved-twice", "worker:finished-count", "panic:", "harness:"} {
+					if strings.HasPrefix(key, p) {
+						return key, msg
+					}
+				}
+				return "", ""
+			}
 		}
 		ctx.Case(id, nontrivial, input, run)
 	}
@@ -2138,7 +2151,7 @@ func main() {
 			"an ACK that names a chunk which is not pending (stale, unknown) may be returned as that id or as an error; an ACK without id must not come back as (\"\", nil), because \"\" means 'the oldest pending chunk' to the client worker",
 			"a time-out error on a 2xx step of a Datadog case that needs the short httpTimeout for another step is not judged (the case is repeated up to 5 times)",
 			"documentation is silent on 3xx answers: a redirect that is followed counts as delivered only if the chunk was sent again to the target",
-			"no wall-clock verdict: 'never returns' means not within 3000 ticks of the process's own 5 ms clock (>= 15 s, every configured time-out <= 500 ms); the 5-minute stalled-case watchdog remains behind it",
+			"no wall-clock verdict: 'never returns' means not within 2000 ticks of the process's own 5 ms clock (>= 10 s, every configured time-out <= 500 ms); the 5-minute stalled-case watchdog remains behind it",
 		},
 		Enumerate:  enumerate,
 		MaxProcs:   8,
